@@ -132,12 +132,22 @@ theorem lastMatch_iff (all sel : List Name) (k : Name) (b : Bool) :
         have := ih.mpr ⟨ys, c, post, rfl, hm, hb, hp⟩
         simp [this]
 
+example : lastMatch ["s1000".toList, "sa1000".toList] ["all".toList, "-s*".toList, "x".toList] "s1000".toList
+    = some false := by decide
+example : ∃ pre c post, ["all".toList, "-s*".toList, "x".toList] = pre ++ c :: post ∧
+    bodyMatches ["s1000".toList, "sa1000".toList] (parseEntry c).2 "s1000".toList = true ∧ (parseEntry c).1 = false ∧
+    ∀ d ∈ post, bodyMatches ["s1000".toList, "sa1000".toList] (parseEntry d).2 "s1000".toList = false :=
+  ⟨["all".toList], "-s*".toList, ["x".toList], by decide, by decide, by decide, by decide⟩
+
 /-! ### the kinds of entries -/
 
 /-- `all` and `*` name every analyzer and nothing else. -/
 theorem all_names_everything (all : List Name) (k : Name) :
     (bodyMatches all allTok k = true ↔ k ∈ all) ∧ (bodyMatches all starTok k = true ↔ k ∈ all) := by
   simp [bodyMatches]
+
+example : bodyMatches ["s1000".toList] allTok "s1000".toList = true ∧ bodyMatches ["s1000".toList] starTok "x".toList = false := by
+  decide
 
 /-- **category glob.** `P*` with a non-empty digit-free `P` names exactly the analyzers whose
 category *equals* `P` — so `S*` names `S1000` but not `SA1000`. -/
@@ -194,6 +204,9 @@ theorem exact_name (all : List Name) (body k : Name) (h1 : body ≠ starTok) (h2
     bodyMatches all body k = true ↔ k = body := by
   simp [bodyMatches, h1, h2, h3]
 
+example : bodyMatches ["s1000".toList] "zz9".toList "zz9".toList = true
+    ∧ bodyMatches ["s1000".toList] "s1000".toList "s1001".toList = false := by decide
+
 /-- **negation.** A leading `-` (on an entry of at least two characters) only flips the
 verdict; the rest of the entry is what is named. -/
 theorem negation (c : Char) (rest : Name) :
@@ -206,6 +219,9 @@ theorem negation (c : Char) (rest : Name) :
   · rename_i c r; exact absurd rfl (hs c r)
   · rfl
 
+example : parseEntry "-S1000".toList = (false, "S1000".toList) ∧ parseEntry "-".toList = (true, "-".toList)
+    ∧ parseEntry "S-1".toList = (true, "S-1".toList) := by decide
+
 /-- **case-insensitivity.** `allowed` depends only on the case folded analyzers, list and
 check name (this is where makeCaseFoldedString is applied in lint.go / cmd.go). -/
 theorem case_insensitive (all all' sel sel' : List Name) (k k' : Name)
@@ -216,6 +232,21 @@ theorem case_insensitive (all all' sel sel' : List Name) (k k' : Name)
 example : allowed ["S1000".toList, "SA1000".toList] ["ALL".toList, "-sa*".toList] "Sa1000".toList = false
     ∧ allowed ["S1000".toList, "SA1000".toList] ["ALL".toList, "-sa*".toList] "s1000".toList = true := by
   decide
+
+/-- non-ASCII names: `unicode.IsNumber` ends the category at an Arabic-Indic digit, a superscript
+or a Roman numeral; `strings.ToLower` folds `É`, the Kelvin sign and `İ` (to ASCII `i`). -/
+example : catOf "sa\u0663x".toList = "sa".toList ∧ catOf "q\u00b2".toList = "q".toList
+    ∧ catOf "r\u2167".toList = "r".toList ∧ catOf "\u00e9t\u00e9".toList = "\u00e9t\u00e9".toList := by decide
+example : allowed ["SA\u0663".toList, "S\u00c91".toList, "\u212a9".toList, "\u0130X1".toList]
+      ["sa*".toList, "s\u00e9*".toList, "K*".toList, "ix1".toList] "SA\u0663".toList = true
+    ∧ allowed ["SA\u0663".toList, "S\u00c91".toList, "\u212a9".toList, "\u0130X1".toList]
+      ["s\u00e9*".toList] "s\u00c91".toList = true
+    ∧ allowed ["SA\u0663".toList, "S\u00c91".toList, "\u212a9".toList, "\u0130X1".toList]
+      ["K*".toList] "\u212a9".toList = true
+    ∧ allowed ["SA\u0663".toList, "S\u00c91".toList, "\u212a9".toList, "\u0130X1".toList]
+      ["ix1".toList] "\u0130x1".toList = true
+    ∧ allowed ["SA\u0663".toList, "S\u00c91".toList, "\u212a9".toList, "\u0130X1".toList]
+      ["s*".toList] "SA\u0663".toList = false := by decide
 
 /-! ## 2. Configuration inheritance -/
 
@@ -278,6 +309,12 @@ theorem cmdline_is_innermost (dflt : Checks) (walk : List Level) (cmd : Checks) 
   cases cmd with
   | none => simp [Checks.merge, resolve, inherit_splice]
   | some c => simp [Checks.merge, resolve, inherit_splice, mergeLists_eq_splice]
+
+example : (mergeConfigs (parseConfigs (some ["all".toList]) [.conf (some ["inherit".toList, "-s1".toList])])).merge
+    (some ["inherit".toList, "s1".toList])
+    = resolve (some ["all".toList]) [.conf (some ["inherit".toList, "s1".toList]), .conf (some ["inherit".toList, "-s1".toList])]
+    ∧ resolve (some ["all".toList]) [.conf (some ["inherit".toList, "s1".toList]), .conf (some ["inherit".toList, "-s1".toList])]
+      = some ["all".toList, "-s1".toList, "s1".toList] := by decide
 
 /-! ### normalizeList does not change what is selected (helper lemmas) -/
 
@@ -371,6 +408,8 @@ theorem unset_inherits (dflt : Checks) (walk : List Level) :
     resolve dflt (.conf none :: walk) = resolve dflt walk ∧
     resolve dflt (.absent :: walk) = resolve dflt walk := ⟨rfl, rfl⟩
 
+example : resolve (some ["all".toList]) [.conf none, .absent, .conf (some ["x".toList])] = some ["x".toList] := by decide
+
 theorem mem_dedupFrom (p x : Name) (l : List Name) : x ∈ dedupFrom p l → x ∈ l := by
   induction l generalizing p with
   | nil => simp [dedupFrom]
@@ -415,6 +454,10 @@ theorem no_unresolved_inherit (d : List Name) (hd : inheritTok ∉ d) (walk : Li
     constructor
     · intro h; exact hn (by simp [h])
     · intro h; exact hn (List.mem_cons_of_mem _ (mem_dedupFrom _ _ _ h))
+
+example : inheritTok ∉ ["all".toList, "-ST1000".toList] ∧
+    unresolvedInherit (some ["all".toList, "-ST1000".toList]) [.conf (some ["inherit".toList, "inherit".toList])] = false
+    ∧ unresolvedInherit (some ["inherit".toList]) [] = true := by decide
 
 /-! ## 3. What is printed -/
 
@@ -468,6 +511,13 @@ theorem lintPackage_spec (m : AMap) (diags extra unused : List Diag) (d : Diag)
     · rintro ⟨a | a, b⟩
       · exact Or.inl ⟨a, b⟩
       · rw [hu d a] at b; exact absurd b hm
+
+/-- non-vacuity of `lintPackage_spec`: U1000 allowed, one analyzer problem filtered, one kept. -/
+example : lintPackage (filterAnalyzerNames ["s1000".toList, "sa4000".toList, "u1000".toList] ["s*".toList, "u1000".toList])
+    [⟨"S1000".toList, false, 1⟩, ⟨"SA4000".toList, false, 2⟩] [⟨staticcheckTok, false, 3⟩] [⟨"U1000".toList, false, 4⟩]
+    = [⟨"S1000".toList, false, 1⟩, ⟨staticcheckTok, false, 3⟩, ⟨"U1000".toList, false, 4⟩]
+    ∧ (∀ u ∈ [(⟨"U1000".toList, false, 4⟩ : Diag)], lower u.cat = u1000)
+    ∧ (⟨"S1000".toList, false, 1⟩ : Diag) ∉ [(⟨staticcheckTok, false, 3⟩ : Diag)] := by decide
 
 /-! ## 4. Exit status -/
 
@@ -567,6 +617,11 @@ theorem exit_zero_or_one (all fail : List Name) (si nc : Bool) (fmt : Format) (d
   simp only
   split <;> (try split) <;> simp
 
+example : (printDiagnostics ["S1".toList] [] false false .text [⟨"S1".toList, false, 1⟩]).2 = 0
+    ∧ (printDiagnostics ["S1".toList] ["S1".toList] false false .text [⟨"S1".toList, false, 1⟩]).2 = 1
+    ∧ (printDiagnostics ["S1".toList] ["-all".toList] false true .text [⟨compileTok, false, 1⟩]).2 = 0
+    ∧ (printDiagnostics ["S1".toList] ["-all".toList] false false .text [⟨compileTok, false, 1⟩]).2 = 1 := by decide
+
 /-- SARIF output always exits zero. -/
 theorem sarif_exits_zero (all fail : List Name) (si nc : Bool) (ds : List Diag) :
     (printDiagnostics all fail si nc .sarif ds).2 = 0 := by
@@ -594,9 +649,10 @@ theorem shown_spec (all fail : List Name) (showIgnored noCompile : Bool) (fmt : 
   unfold printDiagnostics count
   simpa using (count_foldl (shouldExit all fail) showIgnored noCompile ds {}).2
 
-/-- every formatter is handed the same list (the formatters' own rendering is tied by
-correspondence only: the four outputs are parsed back and compared by the check). -/
-theorem formats_same_problems (all fail : List Name) (si nc : Bool) (f g : Format) (ds : List Diag) :
+/-- every formatter is handed the same list. Holds by `rfl` (in the model the list does not
+depend on the format by construction); kept as a lemma. The property clause about the
+formatters is `formats_same_problems` in `FormatTheorems.lean`. -/
+theorem shown_list_format_independent (all fail : List Name) (si nc : Bool) (f g : Format) (ds : List Diag) :
     (printDiagnostics all fail si nc f ds).1.shown = (printDiagnostics all fail si nc g ds).1.shown := rfl
 
 end Verif.C11
